@@ -202,6 +202,13 @@ func getChildQueuesPreemptableResource(queue *Queue, parentPreemptableResource *
 				childPreemptableResource.Resources[k] = resources.Quantity(value)
 			}
 		}
+		// a type the parent must preempt but this child has no usage above guaranteed for: nothing of that type
+		// may be taken here, otherwise the victims of this child are not bounded in that type
+		for k := range parentPreemptableResource.Resources {
+			if _, ok := childPreemptableResource.Resources[k]; !ok {
+				childPreemptableResource.Resources[k] = 0
+			}
+		}
 		if c.IsLeafQueue() {
 			leafContext := NewQuotaPreemptor(c)
 			leafContext.preemptableResource = childPreemptableResource
